@@ -2,11 +2,14 @@
    what the correspondence check evaluates (the [opsQ] instance) is the [opsR] model on the same numbers. *)
 From Coq Require Import List QArith Qreals Reals.
 From FDAV Require Import Base.Num Base.Vec Base.Quad Model.Stats Model.Ufpca Model.Scores Model.Pspline
-  Model.Basis Model.Repr Model.Mfpca Model.LocalPoly Lemmas.Transfer.
+  Model.Basis Model.Repr Model.Mfpca Model.LocalPoly Model.Simpson Lemmas.Transfer.
 Import ListNotations.
 Theorem T_trapz : forall x y, Q2R (trapz opsQ x y) = trapz opsR (map Q2R x) (map Q2R y).
 Proof. exact trapz_transfer. Qed.
 Print Assumptions T_trapz.
+Theorem T_simpson : forall x y, Q2R (simpson opsQ x y) = simpson opsR (map Q2R x) (map Q2R y).
+Proof. exact simpson_transfer. Qed.
+Print Assumptions T_simpson.
 Theorem T_gram : forall x X nv, map (map Q2R) (gram opsQ x X nv) = gram opsR (map Q2R x) (map (map Q2R) X) (Q2R nv).
 Proof. exact gram_transfer. Qed.
 Print Assumptions T_gram.
